@@ -473,7 +473,72 @@ def rule_r7(ctx, sf: SqlFacts) -> RuleResult:
     return rr
 
 
+def rule_r8(ctx) -> RuleResult:
+    """NAMESPACE_DATA is keyed by the *canonical* (English) namespace name, LOCAL_NS_NAME_BY_ID
+    yields / NS_ID_BY_LOCAL_NAME is keyed by the *local* name.  In the shipped data the two
+    differ (en: Project -> Wiktionary; most other editions: nearly every namespace), so an
+    index of one table with a key from the other key space silently misses and the lookup
+    path no longer recognises the namespace prefix of a stored page."""
+    from ..core.data import DataFiles
+
+    rr = RuleResult("C10.R8", "namespace tables are indexed with keys of their own key space", min_instances=15)
+    sd = DataFiles(ctx.index)
+    differing = sorted(lang for lang, d in sd.namespaces.items() if any(k != v.get("name") for k, v in d.items()))
+    rr.instances["editions_with_local_name_differing_from_key"] = len(differing)
+    if not differing:
+        rr.ok("data", "canonical and local names coincide in every shipped edition")
+        return rr
+
+    def local_name_valued(e: ast.AST, fn, line, depth=0) -> bool:
+        """does the expression denote a local namespace name?"""
+        for n in ast.walk(e):
+            if isinstance(n, ast.Attribute) and n.attr == "LOCAL_NS_NAME_BY_ID":
+                return True
+        if isinstance(e, ast.Subscript) and isinstance(e.slice, ast.Constant) and e.slice.value == "name":
+            return True
+        if isinstance(e, ast.Name) and depth < 3:
+            best = None
+            for a in walk_no_nested(fn):
+                if isinstance(a, ast.Assign) and len(a.targets) == 1 and isinstance(a.targets[0], ast.Name) and a.targets[0].id == e.id \
+                        and a.lineno < line and (best is None or a.lineno > best.lineno):
+                    best = a
+            if best is not None:
+                return local_name_valued(best.value, fn, best.lineno, depth + 1)
+        return False
+
+    for dotted, m, f in ctx.index.all_functions():
+        for n in walk_no_nested(f):
+            table = key = None
+            if isinstance(n, ast.Subscript) and isinstance(n.value, ast.Attribute) and n.value.attr in ("NAMESPACE_DATA", "NS_ID_BY_LOCAL_NAME"):
+                table, key = n.value.attr, n.slice
+            elif isinstance(n, ast.Call) and isinstance(n.func, ast.Attribute) and n.func.attr == "get" and n.args \
+                    and isinstance(n.func.value, ast.Attribute) and n.func.value.attr in ("NAMESPACE_DATA", "NS_ID_BY_LOCAL_NAME"):
+                table, key = n.func.value.attr, n.args[0]
+            elif isinstance(n, ast.Compare) and len(n.ops) == 1 and isinstance(n.ops[0], (ast.In, ast.NotIn)) \
+                    and isinstance(n.comparators[0], ast.Attribute) and n.comparators[0].attr in ("NAMESPACE_DATA", "NS_ID_BY_LOCAL_NAME"):
+                table, key = n.comparators[0].attr, n.left
+            if table is None:
+                continue
+            site = unparse(n)[:70]
+            if table == "NAMESPACE_DATA":
+                if isinstance(key, ast.Constant):
+                    rr.ok(dotted, site, {"fn": dotted, "site": site, "key": "canonical constant"})
+                elif local_name_valued(key, f, n.lineno):
+                    rr.bad(Finding("C10.R8", m.relpath, dotted, site,
+                                   "NAMESPACE_DATA (keyed by canonical name) is indexed with a *local* namespace name; the two differ in "
+                                   "{} shipped editions (e.g. {}), where this lookup misses".format(len(differing), ", ".join(differing[:4])), n.lineno))
+                else:
+                    rr.informational.append({"fn": dotted, "site": site, "key": "not classified"})
+            else:
+                if isinstance(key, ast.Constant) and isinstance(key.value, str):
+                    rr.bad(Finding("C10.R8", m.relpath, dotted, site,
+                                   "NS_ID_BY_LOCAL_NAME (keyed by local name) is indexed with a canonical name constant", n.lineno))
+                else:
+                    rr.ok(dotted, site, {"fn": dotted, "site": site, "key": "local name"})
+    return rr
+
+
 def run(ctx) -> list:
     sf = SqlFacts(ctx.index)
     return [rule_r1(ctx, sf), rule_r2(ctx, sf), rule_r3(ctx, sf), rule_r4(ctx, sf), rule_r5(ctx, sf), rule_r6(ctx, sf),
-            rule_r7(ctx, sf)]
+            rule_r7(ctx, sf), rule_r8(ctx)]
